@@ -299,3 +299,77 @@ _base_scn_kc = scenarios
 
 def scenarios():
     return _base_scn_kc() + [key_copy()]
+
+
+def uid_or_copy():
+    """PGPUID.__or__ (a signature is inserted in order; a packet only into an empty shell; anything else refused) and PGPUID.__copy__
+    (a new identity holding a copy of the packet and of every signature, in order)"""
+    label = 'C14/PGPUID.__or__+__copy__'
+    UID, SD = 'pgpy.pgp.PGPUID', 'pgpy.types.SorteDeque'
+    UIDP = 'pgpy.packet.packets.UserID'
+
+    def gen(repo):
+        obls, funcs, paths = [], [], 0
+        for what in ('signature', 'packet', 'second packet', 'key'):
+            r = scn.Run(repo, UID, '__or__', label + '[__or__ %s]' % what)
+            ex, st = r.ex, r.st
+            me = E.VObj(UID, 'uid')
+            r.set('uid', '_signatures', E.VObj(SD, 'sigs'))
+            r.set('uid', '_uid', E.VObj(UIDP, 'first') if what in ('second packet', 'signature') else E.VNone())
+            r.hook('pgpy.types.ParentRef', 'parent', scn.const(E.VNone()))
+
+            def insort(ex, st, o, a):
+                st.ghost['insorted'] = st.ghost.get('insorted', ()) + (a[0],)
+                return [(st, E.VNone())]
+            r.hook(SD, 'insort', scn.method_hook(insort))
+            other = {'signature': E.VObj(SIG, 'sig'), 'packet': E.VObj(UIDP, 'pkt'), 'second packet': E.VObj(UIDP, 'pkt'), 'key': E.VObj(KEY, 'key')}[what]
+            for pi, (s, v) in enumerate(r.call(me, [other])):
+                paths += 1
+                ins = s.ghost.get('insorted', ())
+                if what in ('second packet', 'key'):
+                    r.oblige(s, 'refused(TypeError),nothing-changes/p%d' % pi,
+                             z3.BoolVal(isinstance(v, E.Raise) and v.exc.split(':')[0] == 'TypeError' and len(ins) == 0
+                                        and (s.heap.get(('uid', '_uid')).ref == 'first' if what == 'second packet' else isinstance(s.heap.get(('uid', '_uid')), E.VNone))))
+                    continue
+                if isinstance(v, E.Raise):
+                    r.oblige(s, 'safety(%s)/p%d' % (v.exc.split(':')[0], pi), z3.BoolVal(False), v.where)
+                    continue
+                if what == 'signature':
+                    r.oblige(s, 'inserted-in-order-among-the-signatures-of-this-identity/p%d' % pi, z3.BoolVal(len(ins) == 1 and ins[0] is other and v is me))
+                else:
+                    r.oblige(s, 'becomes-the-packet-of-the-identity/p%d' % pi, z3.BoolVal(s.heap.get(('uid', '_uid')) is other and len(ins) == 0))
+            res = r.result()
+            obls += res['obligations']
+            funcs += res['funcs']
+        r = scn.Run(repo, UID, '__copy__', label + '[__copy__]')
+        ex, st = r.ex, r.st
+        r.set('uid', '_uid', E.VObj(UIDP, 'pkt'))
+        sigs = [E.VObj(SIG, 's0'), E.VObj(SIG, 's1')]
+        r.set('uid', '_signatures', ex.new_list(st, sigs))
+        r.hook(UID, '__call__', lambda ex, st, c, a: [(st, E.VObj(UID, 'copy'))])
+        cp = lambda ex, st, o, a: [(st, E.VObj(o.cls, 'copy-of-' + str(o.ref)))]
+        r.hook(SIG, '__copy__', scn.method_hook(cp))
+        r.hook(UIDP, '__copy__', scn.method_hook(cp))
+
+        def ior(ex, st, o, a):
+            st.ghost['attached'] = st.ghost.get('attached', ()) + ((o.ref, a[0]),)
+            return [(st, o)]
+        r.hook(UID, '__or__', scn.method_hook(ior))
+        for pi, (s, v) in enumerate(r.call(E.VObj(UID, 'uid'), [])):
+            paths += 1
+            if isinstance(v, E.Raise):
+                r.oblige(s, 'safety(%s)/p%d' % (v.exc.split(':')[0], pi), z3.BoolVal(False), v.where)
+                continue
+            att = [(t, x.ref) for t, x in s.ghost.get('attached', ()) if isinstance(x, E.VObj)]
+            r.oblige(s, 'a-new-identity-with-copies-of-the-packet-and-of-every-signature-in-order/p%d' % pi,
+                     z3.BoolVal(isinstance(v, E.VObj) and v.ref == 'copy' and att == [('copy', 'copy-of-pkt'), ('copy', 'copy-of-s0'), ('copy', 'copy-of-s1')]))
+        res = r.result()
+        return {'obligations': obls + res['obligations'], 'funcs': funcs + res['funcs'], 'paths': paths}
+    return Scenario(label, UID + '.__or__', gen, props=('C14', 'C15'))
+
+
+_base_scn_uc = scenarios
+
+
+def scenarios():
+    return _base_scn_uc() + [uid_or_copy()]
